@@ -21,6 +21,7 @@ type Req struct {
 	Path      string      `json:"path"`
 	Lines     [][2]string `json:"lines"`            // client-supplied forwarding header lines
 	Scheme    string      `json:"scheme,omitempty"` // HTTP/2 only: the :scheme the client claims
+	HostHdr   string      `json:"host_hdr,omitempty"` // HTTP/2 only: a "host" field next to :authority (RFC 9113 8.3.1: :authority is what the client addressed)
 }
 
 type Script struct {
@@ -56,6 +57,9 @@ func gen(t *rapid.T) Script {
 		if s.Proto == "h2" && rapid.IntRange(0, 3).Draw(t, "scheme") == 0 {
 			// a client may claim any :scheme; the connection is TLS all the same
 			r.Scheme = "http"
+		}
+		if s.Proto == "h2" && rapid.IntRange(0, 3).Draw(t, "hosthdr") == 0 {
+			r.HostHdr = rapid.SampledFrom([]string{"admin.internal", "example.com", "other.example:8443"}).Draw(t, "hh")
 		}
 		nl := rapid.IntRange(0, 5).Draw(t, "nl")
 		for j := 0; j < nl; j++ {
@@ -104,7 +108,11 @@ func exec(t *testing.T, s Script) *vstat.Violation {
 		defer cc.Close()
 		_ = cc.TLS.Proto
 		for _, r := range s.Reqs {
-			ex := cc.Do(rig.ReqSpec{Method: "GET", Path: r.Path, Authority: r.Authority, Headers: r.Lines, Scheme: r.Scheme})
+			hdrs := r.Lines
+			if r.HostHdr != "" {
+				hdrs = append(append([][2]string{}, r.Lines...), [2]string{"host", r.HostHdr})
+			}
+			ex := cc.Do(rig.ReqSpec{Method: "GET", Path: r.Path, Authority: r.Authority, Headers: hdrs, Scheme: r.Scheme})
 			if ex.Err != "" || ex.Status != 200 {
 				errs = append(errs, fmt.Sprintf("%s: %d %s", r.Path, ex.Status, ex.Err))
 			}
@@ -174,6 +182,10 @@ func exec(t *testing.T, s Script) *vstat.Violation {
 			nt = true
 			cl = append(cl, "client-sent:"+http.CanonicalHeaderKey(l[0]))
 		}
+		if r.HostHdr != "" && r.HostHdr != r.Authority {
+			nt = true
+			cl = append(cl, "h2-host-field-differs-from-authority")
+		}
 	}
 	col.Case(fmt.Sprintf("%+v", s), nt, s, dedup(cl)...)
 	return nil
@@ -193,6 +205,6 @@ func dedup(in []string) []string {
 
 func TestForwarding(t *testing.T) {
 	rig.Certs()
-	col.Mandatory("proto:h2", "proto:http/1.1", "proto:none", "peer:ipv6", "peer:ipv4", "client-sent:X-Forwarded-For", "client-sent:Forwarded", "client-sent:X-Forwarded-Host", "client-sent:X-Forwarded-Proto", "preserve:true", "preserve:false", "h2-scheme-http")
+	col.Mandatory("proto:h2", "proto:http/1.1", "proto:none", "peer:ipv6", "peer:ipv4", "client-sent:X-Forwarded-For", "client-sent:Forwarded", "client-sent:X-Forwarded-Host", "client-sent:X-Forwarded-Proto", "preserve:true", "preserve:false", "h2-scheme-http", "h2-host-field-differs-from-authority")
 	vstat.Run(t, vstat.Spec[Script]{Col: col, Quick: 2500, Thorough: 60000, Gen: gen, Exec: func(s Script) *vstat.Violation { return exec(t, s) }})
 }
